@@ -3,6 +3,7 @@ package c09
 import (
 	"context"
 	"fmt"
+	"go.opentelemetry.io/collector/confmap/xconfmap"
 	"sort"
 	"strings"
 	"testing"
@@ -55,10 +56,20 @@ func runRoute(s Script) (bool, string, *vt.Finding) {
 
 	cRoute.Class("class:"+plan.Class, fmt.Sprintf("pipelines:%d", len(tp.Pipelines)))
 
+	// The collector validates the configuration object before it builds the service from that same object
+	// (otelcol: xconfmap.Validate, then service.New): do the same, a validation that rewrites what it
+	// validates must show up in the routing.
+	cfg := w.Config()
+	if verr := xconfmap.Validate(&cfg); verr != nil {
+		cRoute.Class("validate-rejects:" + plan.Class)
+		if plan.Class == "valid" {
+			return true, key, vt.Failf("valid-rejected/validate", "xconfmap.Validate rejected a valid configuration: %v", verr)
+		}
+	}
 	var srv *service.Service
 	err, f := phase("new", func() error {
 		var e error
-		srv, e = service.New(ctx, w.Settings(), w.Config())
+		srv, e = service.New(ctx, w.Settings(), cfg)
 		return e
 	})
 	if f != nil {
